@@ -373,8 +373,8 @@ static int cli_fate(int d, int to_server)
 static void cli_tunw(int proc, const unsigned char *data, int len, int matched) { (void)matched; if (cli_capture) note_out(3 + 16 * proc, NULL, data, len); }
 static void cli_on_send_direct(int d) { vw_dgram *g = &W.dg[d]; lastoutlen = g->len > (int)sizeof lastout ? (int)sizeof lastout : g->len; memcpy(lastout, g->data, lastoutlen); vw_dgram_free(d); }
 
-static const char *CLI_T[6] = { "NULL", "TXT", "CNAME", "MX", "SRV", "A" };
-static const char *CLI_O[6] = { "", "base32", "base32", "base32", "base64", "base32" };
+static const char *CLI_T[7] = { "NULL", "TXT", "CNAME", "MX", "SRV", "A", "NULL" };      /* cell 6: raw UDP mode */
+static const char *CLI_O[7] = { "", "base32", "base32", "base32", "base64", "base32", "" };
 
 static void cli_deliver_shape(const shape *sh)
 {
@@ -398,6 +398,22 @@ static int honest_answer(unsigned char *out, const unsigned char *payload, int p
 	if (lastoutlen <= 0) return -1;
 	memcpy(out, lastout, lastoutlen);
 	return lastoutlen;
+}
+
+/* raw UDP mode: frames as the server sends them (ident 10 d1 9e, command nibble | user nibble), cut at every length */
+static void cli_raw_shapes(void)
+{
+	unsigned char pkt[600], ip[200], z[300];
+	nsh = 0;
+	int uid = ca_w_userid();
+	for (int sz = 40; sz <= 120; sz += 80) {
+		int l = tm_ippkt(ip, sz, 0xC0A80101u, 0x0A000002, 9 + sz), zl = tm_compress(ip, l, z, sizeof z);
+		int n = tm_raw(pkt, 0x20, uid, z, zl); shapes_from_seed(pkt, n, 0, "raw data frame for this client", 1);
+		n = tm_raw(pkt, 0x20, (uid + 5) & 15, z, zl); shapes_from_seed(pkt, n, 0, "raw data frame for another user", 3);
+	}
+	int n = tm_raw(pkt, 0x30, uid, NULL, 0); shapes_from_seed(pkt, n, 0, "raw ping", 1);
+	{ unsigned char h[16]; memset(h, 0x77, 16); n = tm_raw(pkt, 0x10, uid, h, 16); shapes_from_seed(pkt, n, 0, "raw login frame", 1); }
+	for (int c = 0; c < 16; c++) { pkt[0] = 0x10; pkt[1] = 0xd1; pkt[2] = 0x9e; pkt[3] = (c << 4) | uid; add_shape(pkt, 4, NULL, 0, 0, "raw header only, command nibble %d", c); }
 }
 
 static void cli_shapes(int cell)
@@ -476,7 +492,8 @@ static void job(int j)
 	}
 	int cell = j - 3;
 	ns_cfg cfg; ns_defaults(&cfg);
-	cfg.qtype = CLI_T[cell]; cfg.downenc = CLI_O[cell]; cfg.lazy = 1; cfg.fragsize = cell >= 2 ? 100 : 0;
+	cfg.qtype = CLI_T[cell]; cfg.downenc = CLI_O[cell]; cfg.lazy = 1; cfg.fragsize = cell >= 2 && cell < 6 ? 100 : 0;
+	cfg.raw = cell == 6;
 	ns_mon_tun_write = cli_tunw;
 	ns_extra_fate = cli_fate; cli_capture = 0;
 	W.hooks.on_sanitizer = on_san;
@@ -489,16 +506,17 @@ static void job(int j)
 	cli_capture = 1;
 	{
 		/* the client's outstanding query is its last ping: make it send a fresh one so that we know its bytes */
-		int64_t t = W.now + 4100000;
+		int64_t t = W.now + (cell == 6 ? 21000000 : 4100000);     /* raw mode pings every 20 s */
 		h128_init(&OH); nout = 0;
 		while (W.now < t && vw_step()) ;
 		if (cli_lastqlen <= 0) vw_fatal("client sent no query to answer");
+		if (cell == 6 && ca_w_conn() != CONN_RAW_UDP) { xp_sample("client cell raw mode: raw login did not succeed, not explored"); return; }
 		/* drop pending deliveries to the server (none should exist) */
 	}
 	for (int i = 0; i < VW_MAXEVENTS; i++) if (W.ev[i].used && W.ev[i].kind == VW_EV_DELIVER) { vw_dgram_free(W.ev[i].a); W.ev[i].used = 0; }
 	other_len = tm_ping(other_dgram, 0x802, cfg.qtype[0] == 'N' ? 10 : 16, 1, 0, 0, 0x2345, DOM);
-	cli_shapes(cell);
-	char where[80]; snprintf(where, sizeof where, "client tunnelling with -T %s", CLI_T[cell]);
+	if (cell == 6) cli_raw_shapes(); else cli_shapes(cell);
+	char where[80]; snprintf(where, sizeof where, cell == 6 ? "client tunnelling in raw UDP mode" : "client tunnelling with -T %s", CLI_T[cell]);
 	xp_sample("%s: %d answer shapes x %d residues, e.g. '%s' / '%s'", where, nsh, NRES, SH[nsh / 3].desc, SH[nsh - 5].desc);
 	run_shapes(1, where, cli_deliver_shape);
 }
@@ -515,7 +533,7 @@ int main(int argc, char **argv)
 	xp_guard(NULL, &W.cur, 1);
 	if (a.replay) { xp_load_replay(a.replay); job(XC.job); return 0; }
 	hc_quiet();
-	xp_run_jobs(3 + 6, job, a.workers);
+	xp_run_jobs(3 + 7, job, a.workers);
 	char extra[400];
 	snprintf(extra, sizeof extra, "\"shapes\":%ld,\"deliveries\":%ld,\"server_shapes\":%ld,\"client_shapes\":%ld,\"shapes_with_a_reaction\":%ld,\"residues\":%d,\"sanitizer_notes_for_C05_C06\":%ld",
 		 XS->counters[K_SHAPES], XS->counters[K_DELIVERIES], XS->counters[K_SRV_SHAPES], XS->counters[K_CLI_SHAPES], XS->counters[K_REACTIONS], NRES, XS->counters[K_SAN]);
